@@ -127,7 +127,20 @@ let () =
            | None -> ());
           if !why <> [] then violation (String.concat "; " (List.rev !why));
           (* ---- correspondence with the model ---- *)
-          let (st, tr) = model_obs_run kind ops in
+          (* the collectors behind "cum@ival0", "cum@rand101", "samp@ivalmax" are evaluated through their OWN model
+             (Model/EventsMore.v: run_interval, run_rand) at the parameter values the harness uses, with a clock that
+             stands still (the real clock is not observed; it does not go backwards and 1000 hours do not elapse during a
+             run) and without coins (none is drawn at 101 percent). Props/C14.v section 11 proves that this is the trace
+             of the kind named before the '@' (C14_interval_zero_is_cumulative, C14_interval_long_is_first_only,
+             C14_rand_over_100_is_cumulative); the two are compared below as well *)
+          let raw_kind = (match split_ws hd with _ :: k0 :: _ -> k0 | _ -> "") in
+          let still = List.map (fun _ -> Z0) ops in
+          let (st_k, tr_k) = model_obs_run kind ops in
+          let (st, tr) = (match raw_kind with
+              | "cum@ival0" -> let (ist, t) = run_interval Z0 still ops in (ist.i_base, t)
+              | "samp@ivalmax" -> let (ist, t) = run_interval (z_of_string "3600000000000000") still ops in (ist.i_base, t)
+              | "cum@rand101" -> run_rand (z_of_string "101") [] ops
+              | _ -> (st_k, tr_k)) in
           let m_added = added_of tr in
           let calls = ref 0 in
           let refused_call () = let k = !calls in incr calls; List.mem k failing in
@@ -137,6 +150,8 @@ let () =
           let m_errs = String.concat "" (List.map fst marks) in
           let m_written = List.filter_map snd marks in
           let diffs = ref [] in
+          if tr <> tr_k || st.s_store <> st_k.s_store || st.s_current <> st_k.s_current then
+            diffs := ("the model of " ^ raw_kind ^ " (EventsMore) and the kind it is mapped to disagree") :: !diffs;
           if string_of_perfs m_added <> string_of_perfs i_added then
             diffs := ("added model=" ^ string_of_perfs m_added) :: !diffs;
           if m_errs <> errs then diffs := ("errs model=" ^ m_errs) :: !diffs;
